@@ -769,6 +769,16 @@ func (fr *Frame) copyRange(dst *Term, dOff *Term, src *Term, sOff *Term, n *Term
 		}
 		return r
 	}
+	if B := fr.u.unrollAll; B > 0 {
+		// bounded mode: quantifier-free expansion; longer copies are not explored
+		fr.u.facts = append(fr.u.facts, Implies(fr.reach, Le(n, IntLit(int64(B)))))
+		r := dst
+		for i := int64(0); i < int64(B); i++ {
+			at := Add(dOff, IntLit(i))
+			r = Store(r, at, Ite(Lt(IntLit(i), n), Select(src, Add(sOff, IntLit(i))), Select(dst, at)))
+		}
+		return r
+	}
 	r := Fresh("row", dst.S)
 	j := BoundVar("k", IntS)
 	in := And(Le(dOff, j), Lt(j, Add(dOff, n)))
@@ -830,6 +840,16 @@ func (fr *Frame) runeToString(in ssa.Instruction, a *Val, from, to types.Type) *
 		iv = BV2IntSigned(v)
 	} else {
 		iv = BV2Int(v)
+	}
+	if v.S.K == SBV && v.S.W == 8 {
+		// string(byte): exact UTF-8 of U+0000..U+00FF
+		r := fr.allocRaw()
+		hi := BVCmp("bvuge", v, BVLit(128, 8))
+		b0 := Ite(hi, BVOp("bvor", BVLit(0xC0, 8), BVOp("bvlshr", v, BVLit(6, 8))), v)
+		b1 := BVOp("bvor", BVLit(0x80, 8), BVOp("bvand", v, BVLit(0x3F, 8)))
+		row := Store(Store(ConstArr(ArrS(IntS, BVS(8)), BVLit(0, 8)), IntLit(0), b0), IntLit(1), b1)
+		fr.st.setRow("str8", r, row)
+		return &Val{K: VString, T: to, Ref: r, Off: IntLit(0), Len: Ite(hi, IntLit(2), IntLit(1))}
 	}
 	r := fr.allocRaw()
 	ascii := And(Le(IntLit(0), iv), Lt(iv, IntLit(128)))
